@@ -8,11 +8,13 @@
 // block-device index, directory-backed state). For EVERY crash point between any two logged I/O
 // operations (data write / sync call / sync return, index record write, state-file remove /
 // create / write / fsync / rename / directory fsync) EVERY admissible post-crash medium is built:
-//   data device   everything issued before the call of the last completed sync is durable; each
-//                 later sector write is independently kept or lost (torn multi-sector writes)
-//   index device  never synced: each record write since the start of the run is kept or lost
-//   directory     metadata operations after the last directory fsync survive as any prefix of
-//                 their order (thorough: any subset); unsynced file data survives as a prefix
+//
+//	data device   everything issued before the call of the last completed sync is durable; each
+//	              later sector write is independently kept or lost (torn multi-sector writes)
+//	index device  never synced: each record write since the start of the run is kept or lost
+//	directory     metadata operations after the last directory fsync survive as any prefix of
+//	              their order (thorough: any subset); unsynced file data survives as a prefix
+//
 // The real store is restarted on each medium (raw, non-validating read path) and every object
 // its index resolves must have exactly the uploaded bytes at the location the store reads; then
 // fresh uploads are accepted and the objects must stay intact while they remain resolvable; in
@@ -30,6 +32,8 @@ import (
 	"github.com/buildbarn/bb-storage/pkg/digest"
 	"github.com/buildbarn/bb-storage/pkg/verifshim/vsched"
 	"google.golang.org/grpc/status"
+
+	"github.com/buildbarn/bb-storage/pkg/verifshim/vsync"
 
 	"verifh/ev"
 	"verifh/lstore"
@@ -57,7 +61,9 @@ func inst(g lstore.Geometry) string {
 	return ""
 }
 
-func obj(g lstore.Geometry, n string) lstore.Obj { return lstore.CASObj(n, inst(g), []byte(contents[n])) }
+func obj(g lstore.Geometry, n string) lstore.Obj {
+	return lstore.CASObj(n, inst(g), []byte(contents[n]))
+}
 
 // resolve reads, without any refresh, the bytes at the location the restarted store's index gives for d.
 func resolve(s *lstore.Store, d digest.Digest) ([]byte, bool, error) {
@@ -304,13 +310,110 @@ var seenPrefix = map[[32]byte]bool{}
 // concBody: a client script with both syncer loops running as free daemon threads; every schedule
 // within the deviation bound produces an I/O journal; every crash point of every journal whose
 // prefix has not been seen before (by this worker) is enumerated.
-func concBody(g lstore.Geometry, script []string, lim lstore.CrashLimits) func() {
+func concBody(g lstore.Geometry, script []string, others [][]string, lim lstore.CrashLimits) func() {
 	return func() {
 		med := lstore.NewMedia(g)
 		ctx, cancel := context.WithCancel(context.Background())
 		defer cancel()
 		s := lstore.OpenWith(g, med, lstore.OpenOptions{Ctx: ctx})
+		run := func(who string, script []string) {
+			for _, op := range script {
+				if op[:3] == "Get" {
+					_, err := s.Get(obj(g, op[3:]).Digest)
+					vsched.Obs("%s%s=%s", who, op, status.Code(err))
+				} else {
+					o := obj(g, op[3:])
+					err := s.PutOK(o.Digest, o.Content)
+					vsched.Obs("%s%s=%s", who, op, status.Code(err))
+				}
+			}
+		}
+		var wg vsync.WaitGroup
+		for i, sc := range others {
+			i, sc := i, sc
+			wg.Add(1)
+			vsched.GoNamed(fmt.Sprintf("uploader%d", i+1), false, func() { defer wg.Done(); run(fmt.Sprintf("u%d:", i+1), sc) })
+		}
+		run("", script)
+		wg.Wait()
+		vsched.WaitQuiescent()
+		enumerateNewPrefixes(g, med, fmt.Sprintf("concurrent history %v || %v", script, others), lim)
+	}
+}
+
+// enumerateNewPrefixes enumerates every crash point of med's journal whose journal prefix has not
+// been verified before by this worker.
+func enumerateNewPrefixes(g lstore.Geometry, med *lstore.Media, what string, lim lstore.CrashLimits) {
+	st := &stats{}
+	h := sha256.New()
+	for p := 0; p <= len(med.Journal); p++ {
+		if p > 0 {
+			e := med.Journal[p-1]
+			h.Write([]byte{e.Dev})
+			switch e.Dev {
+			case 'D':
+				o := med.Data.Log[e.Idx]
+				h.Write([]byte{o.Kind, byte(o.Off), byte(o.Off >> 8)})
+				h.Write(o.Data)
+			case 'I':
+				o := med.Index.Log[e.Idx]
+				h.Write([]byte{o.Kind, byte(o.Off), byte(o.Off >> 8)})
+				h.Write(o.Data)
+			default:
+				o := med.Dir.Log[e.Idx]
+				h.Write([]byte(o.Kind + "|" + o.Name + "|" + o.To + "|"))
+				h.Write(o.Data)
+			}
+		}
+		var key [32]byte
+		copy(key[:], h.Sum(nil))
+		if seenPrefix[key] {
+			continue
+		}
+		med.EnumerateCrashMedia(p, lim, &st.cs, func(c *lstore.Media, desc string) {
+			verify(g, c, fmt.Sprintf("%s, %s", what, desc), lim, st, false)
+		})
+		// only a prefix that was verified completely is skipped later (a violation aborts before this
+		// point, so re-executing a failing schedule enumerates and fails again)
+		seenPrefix[key] = true
+	}
+	report(st)
+}
+
+// faultScriptBody: the client script with inserted syncer steps as in scriptBody, but every syncer step runs
+// in its own thread and one I/O operation of it (data sync, or any state-directory operation) may fail. The
+// client continues as soon as the step has finished or has gone to sleep before its retry, so uploads and
+// rotations happen between a failed commit / release and its retry; every crash point of every distinct
+// journal prefix is enumerated.
+func faultScriptBody(g lstore.Geometry, script []string, lim lstore.CrashLimits) func() {
+	return func() {
+		med := lstore.NewMedia(g)
+		s := lstore.Open(g, med)
+		med.Dir.Faults, med.Data.SyncFaults = 1, 1
+		ctx := context.Background()
+		sleeping := 0
+		s.Errors.Hook = func(string) { sleeping++ }
+		var hist []string
+		step := func(name string, f func()) {
+			done := false
+			before := sleeping
+			vsched.GoNamed(name, false, func() { f(); done = true })
+			vsched.Block("await-step", false, func() bool { return done || sleeping > before })
+			if done {
+				hist = append(hist, name)
+			} else {
+				hist = append(hist, name+"(failed, retry pending)")
+			}
+		}
 		for _, op := range script {
+			k := vsched.ChooseFree("choice", 3)
+			if k == 1 && s.PutWakeupReady() {
+				step("StepPut", func() { s.Syncer.ProcessBlockPut(ctx) })
+			}
+			if k == 2 && s.ReleaseWakeupReady() {
+				step("StepRelease", func() { s.Syncer.ProcessBlockRelease() })
+			}
+			hist = append(hist, op)
 			if op[:3] == "Get" {
 				_, err := s.Get(obj(g, op[3:]).Digest)
 				vsched.Obs("%s=%s", op, status.Code(err))
@@ -320,41 +423,9 @@ func concBody(g lstore.Geometry, script []string, lim lstore.CrashLimits) func()
 				vsched.Obs("%s=%s", op, status.Code(err))
 			}
 		}
-		vsched.WaitQuiescent()
-		st := &stats{}
-		h := sha256.New()
-		for p := 0; p <= len(med.Journal); p++ {
-			if p > 0 {
-				e := med.Journal[p-1]
-				h.Write([]byte{e.Dev})
-				switch e.Dev {
-				case 'D':
-					o := med.Data.Log[e.Idx]
-					h.Write([]byte{o.Kind, byte(o.Off), byte(o.Off >> 8)})
-					h.Write(o.Data)
-				case 'I':
-					o := med.Index.Log[e.Idx]
-					h.Write([]byte{o.Kind, byte(o.Off), byte(o.Off >> 8)})
-					h.Write(o.Data)
-				default:
-					o := med.Dir.Log[e.Idx]
-					h.Write([]byte(o.Kind + "|" + o.Name + "|" + o.To + "|"))
-					h.Write(o.Data)
-				}
-			}
-			var key [32]byte
-			copy(key[:], h.Sum(nil))
-			if seenPrefix[key] {
-				continue
-			}
-			med.EnumerateCrashMedia(p, lim, &st.cs, func(c *lstore.Media, desc string) {
-				verify(g, c, fmt.Sprintf("concurrent history %v, %s", script, desc), lim, st, false)
-			})
-			// only a prefix that was verified completely is skipped later (a violation aborts before this
-			// point, so re-executing a failing schedule enumerates and fails again)
-			seenPrefix[key] = true
-		}
-		report(st)
+		vsched.WaitOthersFinished()
+		med.Dir.Faults, med.Data.SyncFaults = 0, 0
+		enumerateNewPrefixes(g, med, fmt.Sprintf("history %v", hist), lim)
 	}
 }
 
@@ -381,7 +452,7 @@ func main() {
 	}
 	slim := lstore.CrashLimits{FullProductMax: ev.Pick(r, 1<<7, 1<<11), Deviation: ev.Pick(r, 1, 2), DirSubsets: r.Thorough()}
 	scripts := map[string][]string{
-		"rotation":         {"PutC8", "PutF8", "PutG8", "PutA3", "PutD4", "PutB5"},
+		"rotation":         {"PutC8", "PutF8", "PutG8", "PutD4", "PutB5", "PutA3"}, // allocation is byte-granular: D4+B5 exceed a block, so B5 rotates a second time
 		"rotation-refresh": {"PutA3", "PutC8", "PutF8", "GetA3", "PutG8", "PutB5"},
 		"shared-sectors":   {"PutA3", "PutB5", "PutD4", "GetA3", "PutC8", "PutF8"},
 	}
@@ -398,14 +469,39 @@ func main() {
 		}
 	}
 	clim := lstore.CrashLimits{FullProductMax: ev.Pick(r, 1<<6, 1<<9), Deviation: 1}
-	for _, name := range []string{"rotation", "shared-sectors"} {
-		g := geometry(false)
-		g.DataGates, g.DirGates = true, true
-		sc := scripts[name]
-		if !r.Thorough() {
-			sc = sc[:4]
+	type cs struct {
+		name   string
+		spb    int
+		script []string
+		others [][]string
+	}
+	quickLen := func(sc []string, n int) []string {
+		if !r.Thorough() && len(sc) > n {
+			return sc[:n]
 		}
-		scs = append(scs, mc.Scenario{Name: "conc/" + name, Space: fmt.Sprintf("client script %v with both syncer loops as free daemon threads: every schedule with <=%d deviations (preemptions and early timer expiries); every crash point of every distinct journal prefix; media: full product up to %d, else deviation 1; on %s", sc, ev.Pick(r, 2, 3), clim.FullProductMax, g), Bound: ev.Pick(r, 2, 3), EarlyTimers: true, Body: concBody(g, sc, clim), Budget: time.Duration(ev.Pick(r, 120, 1500)) * time.Second, MaxSteps: 2000000000})
+		return sc
+	}
+	for _, x := range []cs{
+		{"rotation", 2, quickLen(scripts["rotation"], 4), nil},
+		{"shared-sectors", 2, quickLen(scripts["shared-sectors"], 4), nil},
+		// 16-byte blocks: several uploads share a block, so an upload can complete while the sync covering its
+		// block's earlier content is in flight
+		{"same-block", 4, quickLen([]string{"PutA3", "PutD4", "PutB5", "GetA3", "PutC8"}, 3), nil},
+		// two uploaders allocating in the same block and completing in either order
+		{"two-uploaders", 4, []string{"PutA3", "PutB5"}, [][]string{{"PutD4"}}},
+	} {
+		g := geometry(false)
+		g.SectorsPerBlock = x.spb
+		g.DataGates, g.DirGates = true, true
+		scs = append(scs, mc.Scenario{Name: "conc/" + x.name, Space: fmt.Sprintf("client script %v (further uploader threads: %v) with both syncer loops as free daemon threads: every schedule with <=%d deviations (preemptions and early timer expiries); every crash point of every distinct journal prefix; media: full product up to %d, else deviation 1; after every recovery three fresh uploads and a re-check of every resolvable object; on %s", x.script, x.others, ev.Pick(r, 2, 3), clim.FullProductMax, g), Bound: ev.Pick(r, 2, 3), EarlyTimers: true, Body: concBody(g, x.script, x.others, clim), Budget: time.Duration(ev.Pick(r, 120, 1500)) * time.Second, MaxSteps: 2000000000})
+	}
+	for _, x := range []cs{
+		{"rotation", 2, []string{"PutC8", "PutF8", "PutG8", "PutD4", "PutB5"}, nil},
+		{"same-block", 4, []string{"PutA3", "PutD4", "PutB5", "PutC8", "PutF8"}, nil},
+	} {
+		g := geometry(false)
+		g.SectorsPerBlock = x.spb
+		scs = append(scs, mc.Scenario{Name: "faults/" + x.name, Space: fmt.Sprintf("client script %v with every insertion of {nothing, ProcessBlockPut step, ProcessBlockRelease step} before each operation, each step in its own thread, at most one failing I/O operation (data sync or any state-directory operation; the client continues while the step sleeps before its retry); every crash point of every distinct journal prefix; media: full product up to %d, else deviation %d; on %s", x.script, slim.FullProductMax, slim.Deviation, g), Bound: 1, ShardDepth: 2, Body: faultScriptBody(g, x.script, slim), Budget: time.Duration(ev.Pick(r, 150, 1800)) * time.Second, MaxSteps: 2000000000})
 	}
 	mc.Run(r, scs)
 	r.Finish()
